@@ -21,6 +21,10 @@ struct DumpOpts
     char mask_elem{0};
     int mask_index{-1};
     std::string mask_field;
+    // positions that lie inside this element (the faulted block) are printed as "<in-masked-block>": the library gives
+    // synthesized expressions (the default "true" guard of an edge without guard label, ...) the position of whatever
+    // was lexed last, which legitimately moves when the faulted block's text changes
+    std::string mask_path;
     // for declaration-block faults: only the declarations preceding the faulted one are dumped
     int mask_decl_templ{-2};  // -1 = globals, >=0 template index, -2 = off
     int keep_syms{0}, keep_vars{0}, keep_funs{0};
